@@ -1200,6 +1200,69 @@ def move_imports_to_toplevel(source: str) -> str:
     for node in toplevel_imports:
         toplevel_packages.update(_get_package_names(node))
 
+    parents = {child: parent for parent in ast.walk(root) for child in ast.iter_child_nodes(parent)}
+    scope_types = (ast.FunctionDef, ast.AsyncFunctionDef, ast.ClassDef, ast.Lambda)
+
+    def _ancestors(node: ast.AST) -> Iterable[ast.AST]:
+        while node in parents:
+            node = parents[node]
+            yield node
+
+    def _bound_names(node: ast.Import | ast.ImportFrom) -> Collection[str]:
+        return {alias.asname or alias.name.split(".")[0] for alias in node.names}
+
+    def _targets(node: ast.Import | ast.ImportFrom) -> Iterable[Tuple[str, Tuple]]:
+        for alias in node.names:
+            if isinstance(node, ast.ImportFrom):
+                yield alias.asname or alias.name, (node.module, node.level, alias.name)
+            else:
+                yield alias.asname or alias.name.split(".")[0], (alias.name, alias.asname is not None)
+
+    # Names that mean different things in different places cannot share the module namespace:
+    # names the module binds in another way than by an import, and names that two imports
+    # (of this scope or of another function) bind to different objects.
+    import_targets = collections.defaultdict(set)
+    for node in all_imports:
+        for name, target in _targets(node):
+            import_targets[name].add(target)
+    ambiguous_names = {name for name, targets in import_targets.items() if len(targets) > 1}
+    ambiguous_names.update(
+        name.id
+        for name in tracing._walk_module_scope(root)
+        if isinstance(name, ast.Name) and isinstance(name.ctx, (ast.Store, ast.Del))
+    )
+    ambiguous_names.update(
+        node.name
+        for node in tracing._walk_module_scope(root)
+        if isinstance(node, (ast.FunctionDef, ast.AsyncFunctionDef, ast.ClassDef))
+    )
+    has_star_import = any(
+        alias.name == "*" for node in core.walk(root, ast.ImportFrom) for alias in node.names
+    )
+
+    def _is_movable(node: ast.Import | ast.ImportFrom) -> bool:
+        bound = _bound_names(node)
+        if bound & ambiguous_names or has_star_import:
+            return False
+        ancestors = list(_ancestors(node))
+        # An import in a try block is guarded by the handlers; one in a class body is a class attribute.
+        if any(isinstance(ancestor, ast.Try) for ancestor in ancestors):
+            return False
+        scope = next((ancestor for ancestor in ancestors if isinstance(ancestor, scope_types)), None)
+        if scope is None:
+            return True
+        if not isinstance(scope, (ast.FunctionDef, ast.AsyncFunctionDef)):
+            return False
+        # The name stays local to the function if the function binds it in another way as well.
+        for child in ast.walk(scope):
+            if isinstance(child, ast.Name) and child.id in bound and not isinstance(child.ctx, ast.Load):
+                return False
+            if isinstance(child, (ast.Global, ast.Nonlocal)) and bound & set(child.names):
+                return False
+            if isinstance(child, ast.arg) and child.arg in bound:
+                return False
+        return True
+
     imports_movable_to_toplevel = {
         node
         for node in all_imports - toplevel_imports
@@ -1208,15 +1271,8 @@ def move_imports_to_toplevel(source: str) -> str:
             for name in _get_package_names(node)
         )
         and not core.has_ignore_comment(source, core.get_charnos(node, source))
+        and _is_movable(node)
     }
-
-    if defs := set(
-        core.filter_nodes(root.body, (ast.FunctionDef, ast.AsyncFunctionDef, ast.ClassDef))
-    ):
-        first_def_lineno = min(node.lineno - len(node.decorator_list) for node in defs)
-        imports_movable_to_toplevel.update(
-            node for node in toplevel_imports if node.lineno > first_def_lineno
-        )
 
     for i, node in enumerate(root.body):
         if i > 0 and not isinstance(node, (ast.Import, ast.ImportFrom)):
@@ -1232,6 +1288,26 @@ def move_imports_to_toplevel(source: str) -> str:
             lineno = root.body[-1].end_lineno + 1
         else:
             lineno = 1
+
+    if defs := set(
+        core.filter_nodes(root.body, (ast.FunctionDef, ast.AsyncFunctionDef, ast.ClassDef))
+    ):
+        first_def_lineno = min(node.lineno - len(node.decorator_list) for node in defs)
+        # A module level import is only moved above definitions, never above other code
+        # that may have to run before it (e.g. changes of sys.path).
+        passive_types = (ast.FunctionDef, ast.AsyncFunctionDef, ast.ClassDef, ast.Import, ast.ImportFrom)
+        for i, node in enumerate(root.body):
+            if (
+                node in toplevel_imports
+                and node.lineno > first_def_lineno
+                and _is_movable(node)
+                and all(
+                    isinstance(previous, passive_types)
+                    for previous in root.body[:i]
+                    if previous.end_lineno > lineno
+                )
+            ):
+                imports_movable_to_toplevel.add(node)
 
     additions = []
     removals = []
@@ -1254,8 +1330,17 @@ def move_imports_to_toplevel(source: str) -> str:
                 continue
             safe_position_lineno = min(module_import_linenos)
 
-        source_lines = source.splitlines()
-        while safe_position_lineno > 1 and re.findall(r"^\s+", source_lines[safe_position_lineno]):
+        # The new position must come before the statement that the import is moved out of
+        statement = next((a for a in [node, *_ancestors(node)] if parents.get(a) is root), node)
+        if safe_position_lineno > statement.lineno:
+            removals.remove(node)
+            continue
+
+        source_lines = source.split("\n")
+        while (
+            1 < safe_position_lineno < len(source_lines)
+            and re.findall(r"^\s+", source_lines[safe_position_lineno])
+        ):
             safe_position_lineno -= 1
 
         new_node = ast.ImportFrom(
